@@ -279,6 +279,64 @@ fn stream_json(fields: &[&str]) -> String {
     })
 }
 
+/// tojm: `<kind>\t<data>` → the value `compile("@").search(input)` sees for an input of the given Rust type
+/// (with feature `specialized` the fast-path `ToJmespath` impls convert it, otherwise the generic serde path)
+fn stream_tojm(fields: &[&str]) -> String {
+    let kind = fields[0];
+    let data = fields[1];
+    guarded(|| {
+        let e = jmespath::compile("@").unwrap();
+        fn show(r: Result<Rcvar, jmespath::JmespathError>) -> String {
+            match r {
+                Ok(v) => format!("ok {}", value_str(&v)),
+                Err(_) => "ERR".to_string(),
+            }
+        }
+        macro_rules! int {
+            ($t:ty) => {
+                show(e.search(data.parse::<$t>().unwrap()))
+            };
+        }
+        match kind {
+            "value" => show(e.search(serde_stream::parse_json_value_str(data))),
+            "valueref" => {
+                let v = serde_stream::parse_json_value_str(data);
+                show(e.search(&v))
+            }
+            "rcvar" => show(e.search(Rcvar::new(parse_value(data)))),
+            "rcvarref" => {
+                let v = Rcvar::new(parse_value(data));
+                show(e.search(&v))
+            }
+            "variable" => show(e.search(parse_value(data))),
+            "variableref" => {
+                let v = parse_value(data);
+                show(e.search(&v))
+            }
+            "string" => show(e.search(unhex_str(data))),
+            "str" => {
+                let s = unhex_str(data);
+                show(e.search(s.as_str()))
+            }
+            "i8" => int!(i8),
+            "i16" => int!(i16),
+            "i32" => int!(i32),
+            "i64" => int!(i64),
+            "u8" => int!(u8),
+            "u16" => int!(u16),
+            "u32" => int!(u32),
+            "u64" => int!(u64),
+            "isize" => int!(isize),
+            "usize" => int!(usize),
+            "f32" => show(e.search(f32::from_bits(u32::from_str_radix(data, 16).unwrap()))),
+            "f64" => show(e.search(f64::from_bits(u64::from_str_radix(data, 16).unwrap()))),
+            "bool" => show(e.search(data == "t")),
+            "unit" => show(e.search(())),
+            _ => "BADCASE".to_string(),
+        }
+    })
+}
+
 fn main() {
     std::panic::set_hook(Box::new(|_| {}));
     let stream = std::env::args().nth(1).expect("usage: vharness <stream>");
@@ -296,6 +354,7 @@ fn main() {
             "registry" => stream_registry(&fields),
             "json" => stream_json(&fields),
             "serde" => serde_stream::stream_serde(&fields),
+            "tojm" => stream_tojm(&fields),
             "history" => stream_history(&fields),
             s => panic!("unknown stream {}", s),
         };
